@@ -25,6 +25,10 @@ def topo(kind, n):
         chans = [(0, i) for i in range(1, n + 1)] + [(i, n + 1) for i in range(1, n + 1)]
         routes = [[i, n + i] for i in range(1, n + 1)]
         nodes = n + 2
+    elif kind == "fan2":
+        chans = [(0, i) for i in range(1, n + 1)] + [(i, n + i) for i in range(1, n + 1)] + [(n + i, 2 * n + 1) for i in range(1, n + 1)]
+        routes = [[i, n + i, 2 * n + i] for i in range(1, n + 1)]
+        nodes = 2 * n + 2
     else:  # par
         chans = [(0, 1)] * n
         routes = [[i] for i in range(1, n + 1)]
@@ -48,8 +52,8 @@ def path_nodes(tp, route):
 # --------------------------------------------------------------------------- random C03 scripts
 
 def random_send_script(rng):
-    kind = rng.choice(["line", "line", "fan", "fan", "fan", "par"])
-    n = {"line": rng.choice([2, 3, 3, 4]), "fan": rng.choice([1, 2, 2, 3]), "par": rng.choice([2, 3])}[kind]
+    kind = rng.choice(["line", "line", "fan", "fan", "fan", "fan2", "par"])
+    n = {"line": rng.choice([2, 3, 4, 4, 5]), "fan": rng.choice([1, 2, 2, 3]), "fan2": rng.choice([1, 2]), "par": rng.choice([2, 3])}[kind]
     tp = topo(kind, n)
     dst = tp["dst"]
     ops = []
@@ -75,8 +79,21 @@ def random_send_script(rng):
         o = [{"op": "reg", "node": dst, "reg": reg, "amt": sum(amts), "expiry": 3600,
               "method": rng.choice(["user", "user", "ldk"])}]
         send = {"op": "send", "from": 0, "id": pid, "reg": reg, "paths": [tp["routes"][r] for r in rts], "amts": amts}
-        if rng.random() < 0.12 and len(tp["routes"][rts[0]]) > 1:
+        hops = len(tp["routes"][rts[0]])
+        r = rng.random()
+        if r < 0.12 and hops > 1:
             send["fee_over"] = {"0:0": rng.choice([0, 500, 999])}     # first forwarding node is underpaid
+        elif r < 0.30 and hops > 2:
+            send["fee_over"] = {"0:%d" % rng.randrange(1, hops - 1): rng.choice([0, 500, 999])}   # a later one is
+        elif r < 0.45 and hops > 2:
+            # a later forwarding node finds its outgoing channel unusable
+            j = rng.randrange(1, hops)
+            nds = path_nodes(tp, tp["routes"][rts[0]])
+            o.append({"op": "disconnect", "a": nds[j], "b": nds[j + 1]})
+            o.append(send)
+            o.append({"op": "pump"})
+            o.append({"op": "reconnect", "a": nds[j], "b": nds[j + 1]})
+            return {"pid": pid, "reg": reg, "rts": rts, "send": send}, o
         o.append(send)
         return {"pid": pid, "reg": reg, "rts": rts, "send": send}, o
 
@@ -229,11 +246,20 @@ def attribute(pid, wd, fail, other_module, tag):
 
 def compile_send_script(s, rng):
     """A behaviour of PaySendMC (user-level / network-level steps over the fan A-{B_1..B_K}-D)
-    compiled to engine ops: part k of a payment travels A -chan k-> B_k -chan K+k-> D; the payer A
-    (node 0) handles events only when the behaviour says so; resolutions are handed to A one by one
-    (`barrier`), so that `deliver` / `dup` / `commit` keep their meaning."""
+    compiled to engine ops: part k of a payment travels A -chan k-> B_k -chan K+k-> D, or, in the deep
+    variant, A -> B_k -> C_k -> D (a part that `failhop` fails is then failed by C_k, the second of two
+    forwarding nodes); the payer A (node 0) handles events only when the behaviour says so; resolutions are
+    handed to A one by one (`barrier`), so that `deliver` / `dup` / `commit` keep their meaning."""
     K = s["k"]
-    D = K + 1
+    deep = rng.random() < 0.4
+    D = 2 * K + 1 if deep else K + 1
+    last = (lambda k: K + k) if deep else (lambda k: k)          # the node that forwards to D on branch k
+
+    def links(k):
+        return [[0, k], [k, K + k], [K + k, D]] if deep else [[0, k], [k, D]]
+
+    def path(k):
+        return [k, K + k, 2 * K + k] if deep else [k, K + k]
     ops = [{"op": "hold", "node": 0, "on": True}]
     base, regs, first_reg, cur = {}, {}, {}, {}
     for o in s["ops"]:
@@ -253,17 +279,17 @@ def compile_send_script(s, rng):
                 regs[(p, n)] = 10 * p + n
                 first_reg.setdefault(p, 10 * p + n)
             ops.append({"op": "send", "from": 0, "id": p, "reg": regs[(p, n)],
-                        "paths": [[k, K + k] for k in range(1, n + 1)], "amts": amts})
+                        "paths": [path(k) for k in range(1, n + 1)], "amts": amts})
             cur[p] = regs[(p, n)]
         elif t == "arrive":
-            ops.append({"op": "pump", "links": [[0, o["k"]], [o["k"], D]], "barrier": 0})
+            ops.append({"op": "pump", "links": links(o["k"]), "barrier": 0})
         elif t == "failhop":
             k = o["k"]
-            ops += [{"op": "disconnect", "a": k, "b": D}, {"op": "pump", "links": [[0, k]], "barrier": 0},
-                    {"op": "reconnect", "a": k, "b": D}]
+            ops += [{"op": "disconnect", "a": last(k), "b": D}, {"op": "pump", "links": links(k)[:-1], "barrier": 0},
+                    {"op": "reconnect", "a": last(k), "b": D}]
         elif t in ("claim", "failr"):
             ops.append({"op": "claim" if t == "claim" else "failback", "reg": cur.get(o["p"], 0)})
-            ops.append({"op": "pump", "links": [[k, D] for k in range(1, K + 1)] + [[0, k] for k in range(1, K + 1)], "barrier": 0})
+            ops.append({"op": "pump", "links": [l for k in range(1, K + 1) for l in reversed(links(k))], "barrier": 0})
         elif t == "deliver":
             ops.append({"op": "deliver_until", "from": o["k"], "to": 0, "kind": "resolution"})
         elif t == "dup":
@@ -284,7 +310,7 @@ def compile_send_script(s, rng):
         elif t == "abandon":
             ops.append({"op": "abandon", "node": 0, "id": o["p"]})
     ops.append({"op": "settle"})
-    return {"cfg": {"topo": "fan", "n": K}, "ops": ops}
+    return {"cfg": {"topo": "fan2" if deep else "fan", "n": K}, "ops": ops}
 
 
 # --------------------------------------------------------------------------- random C04 scripts
@@ -600,7 +626,10 @@ def run_check(pid, tier, seed, mc_cfgs, compile_fn, random_fn, n_tlc, n_rand, ne
     per = max(1, n_tlc // max(1, len(scripts)))
     chosen = []
     for got in scripts:
-        chosen += rng.sample(got, min(len(got), per))
+        must = got.get("must", []) if isinstance(got, dict) else []
+        rest = got.get("rest", []) if isinstance(got, dict) else got
+        must = must[:per]
+        chosen += must + rng.sample(rest, min(len(rest), per - len(must)))
     conv = [compile_fn(s, rng, consts) for s in chosen]
     rand = [random_fn(rng, consts) for _ in range(n_rand)]
 
@@ -638,7 +667,11 @@ def run_check(pid, tier, seed, mc_cfgs, compile_fn, random_fn, n_tlc, n_rand, ne
                 continue
             key = None
             if ev.get("ev") == "panic" and "HTLCs should be sorted" in ev.get("msg", ""):
-                key = "claim_funds_on_unshown_htlcs"
+                # debug_assert of the recorded C04 finding (claim_funds meeting never shown HTLCs of the hash)
+                if pid != "C04":
+                    vlib.log("[reject] ... panic of the recorded C04 finding claim_funds_drops_unshown_htlcs: not this property")
+                    continue
+                key = "claim_funds_drops_unshown_htlcs"
             if vlib.report_violation(pid, "%s-run%s" % (bname, fl["run"]), {
                     "property": pid, "kind": fl["kind"], "invariant": fl["inv"],
                     "first_unmatched_event": ev, "position_in_run": fl["pos_in_run"], "batch": bname,
